@@ -71,30 +71,26 @@ func c19Gen(x *mcx.Exec) J {
 	for p := 0; p < npaths; p++ {
 		pi := J{}
 		for _, m := range methods7 {
-			// 0: no operation; 1: operation without responses; 2: operation with empty responses object;
-			// 3..: default x code states
-			n := 3 + c19States*c19States - 1
-			st := x.Choose(mcx.INPUT, n, fmt.Sprintf("p%d.%s", p, m))
-			if st == 0 {
+			// operation mode: 0 no operation unless a response slot is set; 1 operation without a responses object;
+			// 2 operation with an empty responses object. Then one choice per response slot (default, 200, 404).
+			mode := x.Choose(mcx.INPUT, 3, fmt.Sprintf("p%d.%s.op", p, m))
+			d := x.Choose(mcx.INPUT, c19States, fmt.Sprintf("p%d.%s.default", p, m))
+			c2 := x.Choose(mcx.INPUT, c19States, fmt.Sprintf("p%d.%s.200", p, m))
+			c4 := x.Choose(mcx.INPUT, c19States, fmt.Sprintf("p%d.%s.404", p, m))
+			if mode == 0 && d == 0 && c2 == 0 && c4 == 0 {
 				continue
 			}
 			op := J{}
-			switch st {
-			case 1:
-			case 2:
-				op["responses"] = J{}
-			default:
-				k := st - 3 + 1 // 1..24 ; (0,0) is covered by the empty responses object
-				d, c := k/c19States, k%c19States
+			if mode != 1 || d+c2+c4 > 0 {
 				rs := J{}
 				if r := c19Response(d, "default"); r != nil {
 					rs["default"] = r
 				}
-				if r := c19Response(c, "code"); r != nil {
+				if r := c19Response(c2, "200"); r != nil {
 					rs["200"] = r
-					if c == 2 {
-						rs["404"] = J{"description": "kept"}
-					}
+				}
+				if r := c19Response(c4, "404"); r != nil {
+					rs["404"] = r
 				}
 				op["responses"] = rs
 			}
